@@ -278,6 +278,33 @@ def run(ck, F, E):
                             ok = True
         ck.require(ok, "C03:DEFAULT:array-shape", "defaults", "implicit arrays get max index DEFAULT_ARRAY_SIZE in each of `dimensions` axes",
                    "implicit arrays are no longer vec![DEFAULT_ARRAY_SIZE; dimensions]", dd.span)
+        # ... as a MAXIMUM INDEX: the vector goes to a constructor that adds one per axis (`max_index.checked_add(1)`), so cell 10
+        # exists; handed to a constructor that takes sizes, the same constant gives indices 0..9
+        from lib import deep_calls
+        def adds_one(path_, depth=0):
+            hb = F.bodies.get(path_)
+            if hb is None or depth > 2:
+                return False
+            for (ob, c) in deep_calls(F, hb, lambda p: p.startswith("abasic_core::arrays::"), depth=2):
+                if c.callee.split("::")[-1] in ("checked_add", "saturating_add", "wrapping_add") and len(c.args) > 1:
+                    a = strip_expr(ob.expr(c.args[1]))
+                    if a[0] == "const" and a[1].get("int") == 1:
+                        return True
+            for (ob, c) in [(hb, None)] + [(F.bodies[c2.callee], None) for (_o, c2) in deep_calls(F, hb, lambda p: p.startswith("abasic_core::arrays::"), depth=2)
+                                           if c2.callee in F.bodies and c2.callee.startswith("abasic_core::arrays::")]:
+                for blk in ob.blocks:
+                    for st in blk["stmts"]:
+                        if st["k"] == "assign" and st["rv"]["k"] == "binop" and st["rv"]["op"] in ("Add", "AddWithOverflow"):
+                            bb_ = st["rv"]["b"]
+                            if bb_.get("k") == "const" and bb_.get("int") == 1 and "usize" in str(bb_.get("ty", "")):
+                                return True
+            return False
+        sinks = [c for c in dd.calls() if c.callee.startswith("abasic_core::arrays::") and c.callee != dd.path]
+        ok2 = bool(sinks) and all(adds_one(c.callee) for c in sinks)
+        ck.require(ok2, "C03:DEFAULT:array-max-index", "defaults",
+                   "the default vector is passed to a constructor that turns a maximum index into a size (+1 per axis)",
+                   "default_for_variable_and_dimensionality hands DEFAULT_ARRAY_SIZE to %s, which does not add one per axis: implicit "
+                   "arrays have indices 0..9 instead of 0..10" % sorted({c.callee.split("::")[-1] for c in sinks}), dd.span)
     for fn in ("Arrays::get_value_at_index", "Arrays::set_value_at_index"):
         b = F.one(fn)
         if b is not None:
